@@ -219,15 +219,38 @@ func cmdRun(args []string) int {
 			_ = logs
 			return 2
 		}
-		for k, w := range expect {
-			o := outs[k]
+		agrees := func(w explore.Witness, o explore.NativeOutcome) bool {
 			okStatus := (w.Status == "ok" && o.Status == "ok") ||
 				(w.Status == "violation" && o.Status == "violation" && o.Label == w.Label) ||
 				(w.Status == "panic-escape" && o.Status == "panic")
-			if !okStatus || (w.Status == "ok" && strings.Join(w.Observed, "|") != strings.Join(o.Observed, "|")) {
-				mismatches = append(mismatches, fmt.Sprintf("%s vars=%v: engine %s %v / native %s %s %v %s", w.Harness, w.Vars, w.Status, w.Observed, o.Status, o.Label, o.Observed, o.Msg))
-			} else {
+			return okStatus && (w.Status != "ok" || strings.Join(w.Observed, "|") == strings.Join(o.Observed, "|"))
+		}
+		var again []int
+		for k, w := range expect {
+			if agrees(w, outs[k]) {
 				validated++
+			} else {
+				again = append(again, k)
+			}
+		}
+		if len(again) > 0 {
+			// natively "settled" is a timed pause: re-run the disagreeing witnesses with long pauses
+			var vs []explore.NativeVector
+			for _, k := range again {
+				vs = append(vs, vecs[k])
+			}
+			outs2, _, err := p.NativeReplaySlow(dir, name, vs, 20*time.Minute)
+			if err != nil {
+				fmt.Println("INCONCLUSIVE native replay:", err)
+				return 2
+			}
+			for j, k := range again {
+				w, o := expect[k], outs2[j]
+				if agrees(w, o) {
+					validated++
+				} else {
+					mismatches = append(mismatches, fmt.Sprintf("%s vars=%v: engine %s %v / native %s %s %v %s", w.Harness, w.Vars, w.Status, w.Observed, o.Status, o.Label, o.Observed, o.Msg))
+				}
 			}
 		}
 		vi := nw
@@ -240,6 +263,13 @@ func cmdRun(args []string) int {
 			o := outs[vi]
 			vi++
 			rep := (c.Status == "violation" && o.Status == "violation" && o.Label == c.Label) || (c.Status == "panic-escape" && o.Status == "panic")
+			if !rep {
+				// once more with long settling pauses before calling it an engine mismatch
+				if o2, _, err := p.NativeReplaySlow(dir, name, []explore.NativeVector{vecs[vi-1]}, 20*time.Minute); err == nil && len(o2) == 1 {
+					o = o2[0]
+					rep = (c.Status == "violation" && o.Status == "violation" && o.Label == c.Label) || (c.Status == "panic-escape" && o.Status == "panic")
+				}
+			}
 			c.Native = o.Status + " " + o.Label + " " + o.Msg
 			cexs = append(cexs, cexOut{c, rep, true})
 		}
